@@ -126,12 +126,19 @@ class Impl:
     def _call_op(self, name, ins, args, sp):
         sg = self.sg
         x = [self.ts[i] for i in ins]
-        ev = (sum(map(ord, name + ' '.join(map(str, args)))) + 7 * len(ins)) % 3 if ENTRIES else 0      # 0: function, 1/2: method / operator
+        self.ncall = getattr(self, 'ncall', 0) + 1        # the entry point also varies from call to call within a program
+        ev = (sum(map(ord, name + ' '.join(map(str, args)))) + 7 * len(ins) + self.ncall) % 3 if ENTRIES else 0      # 0: function, 1/2: method / operator
         if ev:
+            if ev == 2 and name in ('add', 'mul', 'matmul'):
+                # the augmented statement `r = a; r += b` (Python falls back to a + b unless the class defines the in-place hook)
+                import operator
+                r = x[0]
+                r = {'add': operator.iadd, 'mul': operator.imul, 'matmul': operator.imatmul}[name](r, x[1])
+                return r
             if name == 'add': return x[0] + x[1]
             if name == 'mul': return x[0] * x[1]
             if name == 'matmul': return x[0] @ x[1]
-            if name == 'neg': return -x[0]
+            # (`-x` is x * -1 in the library: two operands and a hidden scalar tensor; that form is the `t sop neg` line)
             if name == 'pow': return x[0] ** bitsf(args[0])
             if name == 'rpow': return bitsf(args[0]) ** x[0]
             if name in ('exp', 'log', 'sqrt', 'clone'): return getattr(x[0], name)()
@@ -278,12 +285,15 @@ class Impl:
             hidden = {'add': 1, 'mul': 1, 'neg': 1, 'rsub': 3, 'rdiv': 2}.get(kind)
             if kind == 'sub': hidden = 2 if t[4][0] == 't' else 1
             if kind == 'div': hidden = 1
-            if kind == 'add': r = a + b
-            elif kind == 'mul': r = a * b
+            self.nsop = getattr(self, 'nsop', 0) + 1
+            aug = self.nsop % 2 == 0          # every second operator statement is the augmented one: `r = a; r -= b`
+            import operator
+            if kind == 'add': r = operator.iadd(a, b) if aug else a + b
+            elif kind == 'mul': r = operator.imul(a, b) if aug else a * b
             elif kind == 'neg': r = -a
-            elif kind == 'sub': r = a - b
+            elif kind == 'sub': r = operator.isub(a, b) if aug else a - b
             elif kind == 'rsub': r = b - a
-            elif kind == 'div': r = a / b
+            elif kind == 'div': r = operator.itruediv(a, b) if aug else a / b
             elif kind == 'rdiv': r = b / a
             else: raise KeyError(kind)
             self.ts += [None] * hidden      # the intermediate tensors of the operator are nodes of the model too
